@@ -93,7 +93,7 @@ def conditions(tier: str):
              "return full_reads(v, ref)"])
     # MCOPY-like self copy: all three symbolic
     smax, nmax = (9, 3) if thorough else (7, 2)
-    for lo, hi in (_split(0, 11, 4) + [(12, 25), (26, MAXO)] if thorough else _split(0, 8, 3)):
+    for lo, hi in (_split(0, 11, 4) + _split(12, MAXO, 7) if thorough else _split(0, 8, 3)):
         add(f"W.mcopy.d{lo}-{hi}", "P.write", k, [("d", lo, hi), ("s", 0, smax), ("n", 0, nmax)],
             [mk, "mcopy(v, ref, d, s, n)", "return full_reads(v, ref)"])
     add("W.append", "P.write", k + 3, [("n", 0, 3)],
@@ -105,12 +105,12 @@ def conditions(tier: str):
             [mk, f"v.set_slice(a, a + 2, bytes([x{k}, x{k + 1}])); r_write(ref, a, bytes([x{k}, x{k + 1}]))",
              f"d = bytes([x{k + 2}, x{k + 3}][:n])", "v.set_slice(b, b + len(d), d); r_write(ref, b, d)",
              "return full_reads(v, ref)"])
-    for lo, hi in (_split(0, 8, 2) if thorough else []):
+    for lo, hi in (_split(0, 8, 3) if thorough else []):
         add(f"W2.bytevec_byte.a{lo}-{hi}", "P.write2", k + 3, [("a", lo, hi), ("b", 0, 9)],
             [mk, f"val = ByteVec(); val.append(bytes([x{k}])); val.append(bytes([x{k + 1}]))",
              f"v.set_slice(a, a + 2, val); r_write(ref, a, bytes([x{k}, x{k + 1}]))",
              f"v.set_byte(b, x{k + 2}); r_write(ref, b, bytes([x{k + 2}]))", "return full_reads(v, ref)"])
-        add(f"W2.byte_mcopy.a{lo}-{hi}", "P.write2", k + 1, [("a", lo, hi), ("d", 0, 5), ("s", 0, 5)],
+        add(f"W2.byte_mcopy.a{lo}-{hi}", "P.write2", k + 1, [("a", lo, hi), ("d", 0, 4), ("s", 0, 4)],
             [mk, f"v.set_byte(a, x{k}); r_write(ref, a, bytes([x{k}]))", "mcopy(v, ref, d, s, 2)",
              "return full_reads(v, ref)"])
 
@@ -122,8 +122,8 @@ def conditions(tier: str):
                 [mk, "c = v.copy(); cref = bytearray(ref)", f"d = bytes([x{k}, x{k + 1}, x{k + 2}][:n])",
                  f"{who}.set_slice(a, a + len(d), d); r_write({'ref' if who == 'v' else 'cref'}, a, d)",
                  "return full_reads(c, cref) and full_reads(v, ref)"])
-    for lo, hi in (_split(0, 7, 4) if thorough else []):
-        add(f"C.slice_write_original.s{lo}-{hi}", "P.copy", k + 1, [("s", lo, hi), ("e", 0, 8), ("a", 0, 7)], [mk, "sl = v.slice(s, e); sref = bytearray(r_read(ref, s, e))",
+    for lo, hi in (_split(0, 5, 6) if thorough else []):
+        add(f"C.slice_write_original.s{lo}-{hi}", "P.copy", k + 1, [("s", lo, hi), ("e", 0, 7), ("a", 0, 6)], [mk, "sl = v.slice(s, e); sref = bytearray(r_read(ref, s, e))",
          f"v.set_byte(a, x{k}); r_write(ref, a, bytes([x{k}]))",
          "return full_reads(sl, sref) and full_reads(v, ref)"])
     # a ByteVec written into / appended to another one is a copy of its content at that time
